@@ -350,7 +350,7 @@ CHECKS["C15"] = dict(
          "node-id references, only the top description gains \" (import)\", deleted nodes absent from the YAML. Non-trivial = "
          ">= 3 levels, >= 1 cross reference and >= 1 YAML-significant text.",
     assumptions=["scalars the YAML library alone does not round-trip are redirected and counted (known findings C15-F1, C15-F2)",
-                 "importing at the literal parent \"root\" (root replacement) is not generated",
+                 "importing at the literal parent \"root\" (root replacement) is generated on a second instance only",
                  "a nats: timeout of the helpers' hard-coded 1 s request timeout makes a case inconclusive (counted)"],
     level_text="Generated trees and import targets (rapid) against a structural comparison of the original and imported subtrees on real "
                "instances.",
